@@ -1018,9 +1018,22 @@ def r1513(ctx, rep):
             if not (isinstance(node, ast.Assign) and isinstance(node.value, ast.Call) and _short(node.value) == "qr"):
                 continue
             tg = node.targets[0]
-            if not isinstance(tg, (ast.Tuple, ast.List)) or len(tg.elts) < 2 or not isinstance(tg.elts[1], ast.Name):
+            if isinstance(tg, ast.Name):
+                # fact = qr(..) ; r = fact[1]   (indexed access instead of unpacking)
+                r = None
+                for x in ast.walk(f.node):
+                    if isinstance(x, ast.Assign) and len(x.targets) == 1 and isinstance(x.targets[0], ast.Name) and isinstance(x.value, ast.Subscript) and isinstance(x.value.value, ast.Name) \
+                            and x.value.value.id == tg.id and isinstance(x.value.slice, ast.Constant) and x.value.slice.value == 1:
+                        r = x.targets[0].id
+                if r is None:
+                    direct = [x for x in ast.walk(f.node) if isinstance(x, ast.Subscript) and isinstance(x.value, ast.Name) and x.value.id == tg.id and isinstance(x.slice, ast.Constant) and x.slice.value == 1]
+                    if not direct:
+                        continue      # the triangular factor is never taken out
+                    r = tg.id
+            elif not isinstance(tg, (ast.Tuple, ast.List)) or len(tg.elts) < 2 or not isinstance(tg.elts[1], ast.Name):
                 raise AnalysisError(f"{f.local}:{node.lineno} result of qr() is not unpacked into (q, r, ..): shape not understood")
-            r = tg.elts[1].id
+            else:
+                r = tg.elts[1].id
             # the triangular factor is only ever used to estimate the rank
             # (directly or in a helper); a factor that is never read means no
             # rank is derived from this factorisation
